@@ -2,3 +2,4 @@ package main
 
 // filled in by client.go
 func (c *ctx) clientCorruptStreams() {}
+func (c *ctx) clientStreams()        {}
